@@ -193,6 +193,19 @@ func thresholdQTrace(job []byte, out *Out) error {
 			}
 			rng.Shuffle(len(qs), func(a, b int) { qs[a], qs[b] = qs[b], qs[a] })
 		}
+		if c >= 35 && c < 38 {
+			// long and badly clustered: one class holds most of tens of thousands of values (the sum of squares of the class
+			// deviations passes 2^31)
+			n = []int{6000, 40000, 100000}[c-35]
+			qs = make([]float64, n)
+			for i := range qs {
+				if i%7 == 0 {
+					qs[i] = rng.Float64()
+				} else {
+					qs[i] = 0.3 + 0.1*rng.Float64()
+				}
+			}
+		}
 		if c >= 31 && c < 35 {
 			// long lists (tens of thousands of values, as a caller pooling many samples would pass)
 			n = []int{16384, 16391, 20000, 65537}[c-31]
